@@ -45,6 +45,7 @@ type Template struct {
 	typeof  runtime.TypeOfFunc
 	globals []compiler.Global
 	conv    runtime.Converter
+	goStmt  bool // reports whether the go statement is allowed.
 }
 
 // FormatFS is the interface implemented by a file system that can determine
@@ -116,7 +117,7 @@ func BuildTemplate(fsys fs.FS, name string, options *BuildOptions) (*Template, e
 		}
 		return nil, err
 	}
-	return &Template{fn: code.Main, typeof: code.TypeOf, globals: code.Globals, conv: runtime.Converter(conv)}, nil
+	return &Template{fn: code.Main, typeof: code.TypeOf, globals: code.Globals, conv: runtime.Converter(conv), goStmt: co.AllowGoStmt}, nil
 }
 
 // Run runs the template and write the rendered code to out. vars contains
@@ -150,6 +151,9 @@ func (t *Template) Run(out io.Writer, vars map[string]any, options *RunOptions) 
 		if options.Print != nil {
 			vm.SetPrint(runtime.PrintFunc(options.Print))
 		}
+	}
+	if t.goStmt {
+		vm.AllowGoroutines()
 	}
 	vm.SetRenderer(out, t.conv)
 	err := vm.Run(t.fn, t.typeof, initGlobalVariables(t.globals, vars))
